@@ -2,7 +2,7 @@
 """Re-run every kept seeded change against the checks (regression test of the machinery itself).
   breaking changes (seeded/<id>/ without a trailing q): at least one of the checks named in
       meta.json caught_by (not marked silent / not applicable) must exit 1;
-  property-preserving changes (seeded/<id>q/, <id>r/, <id>s/, <id>t/): all 20 quick checks must exit 0
+  property-preserving changes (seeded/<id>q/, <id>r/, <id>s/, <id>t/, <id>u/): all 20 quick checks must exit 0
       (a change whose meta.json has "expect_alarm": [ids] preserves its own property but breaks
       those: exactly they must report it).
 Applies each patch to /repo, runs, restores /repo (never commits). Writes seeded/RESULTS.md.
@@ -16,7 +16,7 @@ for i in ids:
     meta = json.load(open(f"{V}/seeded/{i}/meta.json"))
     if meta.get("skip"):
         rows.append((i, "-", "skipped: " + meta.get("kind", ""))); continue
-    preserving = i[-1] in "qrst"
+    preserving = i[-1] in "qrstu"
     expect = meta.get("expect_alarm") or (["C15"] if i == "C04r" else None)
     if expect:
         # preserves its own property, breaks others (see its meta.json): exactly those must report it
